@@ -4,7 +4,7 @@ from __future__ import annotations
 import ast
 
 from sa import source
-from sa.cfg import cfg_of, guards
+from sa.cfg import cfg_of, guards, negate
 from sa.source import AnchorMissing, dotted, inline, is_self_attr, last_attr, local_defs, short, u, walk_body
 from sa.sym import rat_equal, parse_expr
 
@@ -60,6 +60,316 @@ def lazy_batch_rule(chk, rid, drv):
     chk.ob(rid, "merged batch located", bool(lazy_defs) or bool(merges), calc, f"lazy locals: {sorted(n.targets[0].id for n in lazy_defs)}")
 
 
+# ---------------------------------------------------------------------------------------------------------------------------------------
+# obligations added after the defect hunt (F23 repaired; F49, F50, F51 known findings)
+
+_PRODUCER_ID = ("client_id", "worker_id")  # fields / parameters that name the producer of a sample (Sample.client_id, UpdateSamples.client_id == worker id, JoinPointReached.worker_id)
+
+
+def _self_root(e):
+    """the `self.<attr>` node an attribute / subscript / call chain hangs off, or None."""
+    n = e
+    while isinstance(n, (ast.Attribute, ast.Subscript, ast.Call)):
+        if is_self_attr(n):
+            return n
+        n = n.func if isinstance(n, ast.Call) else n.value
+    return None
+
+
+def _draining_properties(drv):
+    """names of properties in the module whose getter EMPTIES a queue (get_nowait / popleft / pop): reading such a property consumes what it returns."""
+    out = set()
+    for c in drv.classes():
+        for f in c.body:
+            if isinstance(f, source.FUNC_TYPES) and any(dotted(d) == "property" for d in f.decorator_list) \
+                    and any(isinstance(x, ast.Call) and (last_attr(x.func) in ("get_nowait", "popleft") or (last_attr(x.func) == "pop" and not any(isinstance(a_, ast.Constant) and isinstance(a_.value, str) for a_ in x.args)))
+                            for x in ast.walk(f)):
+                out.add(f.name)
+    return out
+
+
+def sampler_handover_rule(chk, drv):
+    """F23. A worker's sampler object is the only place where the samples of the running load generator live until they are shipped. Overwriting the attribute that holds it
+    (a fresh Sampler for the next round of an over-committed parallel element, or None at a join point) drops whatever the old one still holds: those operations are counted ZERO
+    times by every throughput value. Necessary: on every path to such an overwrite the sampler has been drained, and nothing that lets a load generator add samples (starting one,
+    blocking on one) lies between the drain and the overwrite."""
+    chk.rule("O6.6", "a worker never drops a sampler that may still hold samples: every overwrite of the attribute holding the sampler (outside __init__) is preceded on every path by a "
+             "drain (the method that ships <sampler>.<draining property> as UpdateSamples) with no executor activity (starting a load generator, blocking on its future) between "
+             "the drain and the overwrite", 3,
+             "a parallel element with fewer clients than tasks (several rounds between two join points): the load generator finishes between the periodic drain of the wake-up "
+             "handler and its done() check; the samples added in that window are never shipped, their operations are counted zero times")
+    W = drv.cls("Worker")
+    wm = drv.methods(W)
+    drv.cls("UpdateSamples")
+    dprops = _draining_properties(drv)
+    if not dprops:
+        raise AnchorMissing("a draining property (getter empties a queue) in esrally/driver/driver.py")
+    # role: drain methods of the worker and the attribute that holds the sampler
+    drains = {}
+    for name, f in wm.items():
+        fdefs = local_defs(f)
+        for c in walk_body(f):
+            if not (isinstance(c, ast.Call) and last_attr(c.func) == "send"):
+                continue
+            for msg in c.args:
+                if isinstance(msg, ast.Call) and last_attr(msg.func) == "UpdateSamples":
+                    for a_ in list(msg.args) + [k.value for k in msg.keywords]:
+                        for x in ast.walk(source.inline_node(a_, fdefs)):
+                            if isinstance(x, ast.Attribute) and x.attr in dprops and is_self_attr(x.value):
+                                drains[name] = x.value.attr
+    attrs = sorted(set(drains.values()))
+    chk.ob("O6.6", "drain method of the worker and the attribute holding the sampler located", len(attrs) == 1, W,
+           f"drain method(s) {sorted(drains)} ship self.{attrs[0] if attrs else '?'}.<{'/'.join(sorted(dprops))}> as UpdateSamples")
+    if len(attrs) != 1:
+        raise AnchorMissing("Worker method that ships self.<sampler>.<draining property> as UpdateSamples (exactly one sampler attribute)")
+    sattr = attrs[0]
+    # a worker method that calls a drain method on every normal path is a drain itself (extracted helper)
+    grown = True
+    while grown:
+        grown = False
+        for name, f in wm.items():
+            if name in drains or name == "__init__":
+                continue
+            gf = cfg_of(f)
+            dn = [gf.node_of(c) for c in walk_body(f) if isinstance(c, ast.Call) and is_self_attr(c.func) and c.func.attr in drains]
+            if dn and gf.must_pass(gf.entry, dn, normal_only=True):
+                drains[name] = sattr
+                grown = True
+    # role: the attribute(s) holding the future of the running load generator
+    futures = {t.attr for f in wm.values() for n in walk_body(f) if isinstance(n, ast.Assign) and isinstance(n.value, ast.Call) and last_attr(n.value.func) == "submit"
+               for t in n.targets if is_self_attr(t)}
+
+    def activity(c):
+        if not isinstance(c, ast.Call) or not isinstance(c.func, ast.Attribute):
+            return False
+        if c.func.attr == "submit":
+            return True
+        if c.func.attr in ("result", "exception") and is_self_attr(c.func.value) and c.func.value.attr in futures:
+            to = source.arg_of(c, 0, "timeout")
+            return not (to is not None and source.is_const(to, 0))  # a poll with timeout=0 does not wait for the load generator
+        return False
+
+    n_over = 0
+    for name, f in wm.items():
+        if name == "__init__":
+            continue
+        over = []
+        for n in walk_body(f):
+            tg = n.targets if isinstance(n, (ast.Assign, ast.Delete)) else ([n.target] if isinstance(n, (ast.AugAssign, ast.AnnAssign)) else [])
+            if any(is_self_attr(x, sattr) and isinstance(x.ctx, (ast.Store, ast.Del)) for t in tg for x in ast.walk(t)):
+                over.append(n)
+        if not over:
+            continue
+        g = cfg_of(f)
+        dnodes = [g.node_of(c) for c in walk_body(f) if isinstance(c, ast.Call) and is_self_attr(c.func) and c.func.attr in drains]
+        anodes = [g.node_of(c) for c in walk_body(f) if activity(c)]
+        for s in over:
+            n_over += 1
+            sn = g.node_of(s)
+            dominated = bool(dnodes) and g.dominated_by_nodes(sn, dnodes)
+            gap = [x for x in anodes if x is not sn and x not in dnodes and g.path_exists(x, sn, avoid=dnodes)]
+            val = getattr(s, "value", None)
+            kind = "dropped" if val is None or (source.is_const(val) and val.value is None) else "new-sampler"
+            ok = dominated and not gap
+            chk.ob("O6.6", f"Worker.{name}: the sampler is drained before it is {'replaced by a new one' if kind == 'new-sampler' else 'dropped'}", ok, s,
+                   "" if ok else (f"`{short(s, 70)}` is reachable without a call of {sorted(drains)}: samples the finished load generator added after the last periodic drain are lost" if not dominated
+                                  else f"`{short(gap[0].ast, 60)}` runs between the drain and `{short(s, 50)}`: the load generator can add samples that nobody ships"),
+                   key=f"{_D}:Worker.{name}:drain-before-sampler-overwrite:{kind}")
+    if n_over == 0:
+        raise AnchorMissing(f"an assignment of self.{sattr} in a Worker method other than __init__")
+
+
+def passthrough_decision_rule(chk, drv, calc, ctt, mtt, tp_field):
+    """F49. Whether a task's throughput is runner-supplied (pass-through) or calculated is a property of the TASK. A decision taken anew for every batch from the batch alone cannot be
+    stable: a failed request of a pass-through task carries throughput None, so a batch that starts with (or consists of) such a sample is decided differently from the next one.
+    Necessary: the decision consults state kept per task across calls (sticky) and does not hinge on one positional sample of the batch."""
+    from sa import pat
+    chk.rule("O6.7", "pass-through or calculate is decided per TASK and stays decided: the dispatch condition consults calculator state kept under the task key across calls and does not "
+             "read the runner-supplied throughput of one positional sample of the current batch", 1,
+             "a task whose runner supplies throughput (wait-for-transform) with one failed request (throughput None): cuts 3 / 2|1 emit a (None, 'ops/s') record, cut 1|2 discards the "
+             "supplied 15000 and reports a calculated value, cut 1|1|1 inserts a calculated 0.0 - same samples, different results")
+    calls = {f_.name: [c for c in walk_body(calc) if isinstance(c, ast.Call) and is_self_attr(c.func, f_.name)] for f_ in (ctt, mtt)}
+    if not calls[ctt.name] or not calls[mtt.name]:
+        raise AnchorMissing("calls of calculate_task_throughput and map_task_throughput in ThroughputCalculator.calculate")
+    cdefs = local_defs(calc)
+    c0 = calls[ctt.name][0]
+    loop = source.enclosing(c0, (ast.For, ast.While))
+    if loop is None or source.enclosing_func(loop) is not calc:
+        loop = None
+    key_arg = source.bind_args(c0, ctt).get(source.params_of(ctt)[1])
+    if key_arg is None:
+        raise AnchorMissing("task key passed to calculate_task_throughput")
+    key_txt = inline(key_arg, cdefs)
+    facts = []
+    for c in calls[ctt.name] + calls[mtt.name]:
+        for f_ in pat.fact_nodes(c, stop=loop):
+            if not any(f_ is x for x in facts):
+                facts.append(f_)
+    if not facts:
+        raise AnchorMissing("the condition that selects calculate_task_throughput / map_task_throughput in calculate()")
+    inl, seen_txt = [], set()
+    for f_ in facts:
+        e = source.inline_node(f_, cdefs)
+        txt = {u(e), u(source.inline_node(negate(f_), cdefs))}  # the two arms see the same test, one of them negated
+        if not (txt & seen_txt):
+            inl.append(e)
+        seen_txt |= txt
+    state, positional = [], []
+    for e in inl:
+        for n in ast.walk(e):
+            if isinstance(n, ast.Compare) and len(n.ops) == 1 and isinstance(n.ops[0], (ast.In, ast.NotIn)) and u(n.left) == key_txt and _self_root(n.comparators[0]) is not None:
+                state.append(n)
+            elif isinstance(n, ast.Subscript) and u(n.slice) == key_txt and _self_root(n.value) is not None:
+                state.append(n)
+            elif isinstance(n, ast.Call) and isinstance(n.func, ast.Attribute) and n.func.attr == "get" and n.args and u(n.args[0]) == key_txt and _self_root(n.func.value) is not None:
+                state.append(n)
+            if isinstance(n, ast.Attribute) and n.attr == tp_field:
+                b = n.value
+                one = (isinstance(b, ast.Subscript) and not isinstance(b.slice, ast.Slice) and
+                       (isinstance(b.slice, ast.Constant) or (isinstance(b.slice, ast.UnaryOp) and isinstance(b.slice.operand, ast.Constant)))) or \
+                      (isinstance(b, ast.Call) and dotted(b.func) in ("next", "min", "max"))
+                if one:
+                    positional.append(n)
+    ok = bool(state) and not positional
+    site = source.enclosing_stmt(facts[0]) if isinstance(facts[0], ast.AST) and source.parent(facts[0]) is not None else c0
+    chk.ob("O6.7", "the pass-through decision is taken per task (sticky), not per batch from one positional sample", ok, site,
+           "" if ok else ("decided by " + " / ".join(f"`{short(e, 90)}`" for e in inl) + ": " +
+                          (f"reads `{u(positional[0])}` - whichever sample sorts first in THIS batch decides for the whole batch; " if positional else "") +
+                          ("no state kept under the task key is consulted, so a later batch of the same task can be decided differently "
+                           "(failed request of a pass-through task: throughput None)" if not state else "")),
+           key=f"{_D}:ThroughputCalculator.calculate:pass-through-decision-per-task")
+
+
+def unit_source_rule(chk, drv, TS, TC, ctt, emits, L, stats_var):
+    """F50. The unit of a calculated value names what the running count counts (docs, pages, ops ...). The sample that happens to close a bucket, or to be the last one of a batch, may be
+    a failed request, which is recorded with weight 0 and the placeholder unit 'ops'. Necessary: the unit does not come from that sample but from a source that is independent of where the
+    bucket / the batch ends (task-level state that not every sample overwrites)."""
+    chk.rule("O6.8", "the unit of a calculated throughput value does not come from the sample that happens to close the bucket or to end the batch (a failed request carries the placeholder "
+             "unit 'ops'): it is read from a batch-independent source, e.g. per-task state that is not overwritten by every sample", 2,
+             "a bulk task (docs) with one failed request under on-error=continue: if that sample closes a bucket / ends a batch the value for N docs is stored as 'ops/s'; which record is "
+             "hit, and the unit the summary report shows, depends on the cut")
+    batch = source.params_of(ctt)[2] if len(source.params_of(ctt)) > 2 else None
+    if batch is None:
+        raise AnchorMissing("batch parameter of calculate_task_throughput")
+    # names that hold one sample of the batch: loop variables over the batch, positional elements of it, and copies of those
+    sampled = set()
+    changed = True
+    while changed:
+        changed = False
+        for n in walk_body(ctt):
+            new = set()
+            if isinstance(n, (ast.For, ast.comprehension)) and any(isinstance(x, ast.Name) and x.id == batch for x in ast.walk(n.iter)):
+                new = {x.id for x in ast.walk(n.target) if isinstance(x, ast.Name)}
+            elif isinstance(n, ast.Assign):
+                v = n.value
+                element = isinstance(v, ast.Subscript) and isinstance(v.value, ast.Name) and v.value.id == batch and not isinstance(v.slice, ast.Slice)
+                if (isinstance(v, ast.Name) and v.id in sampled) or element:
+                    new = {t.id for t in n.targets if isinstance(t, ast.Name)}
+            if new - sampled:
+                sampled |= new
+                changed = True
+    if not sampled:
+        raise AnchorMissing("sample loop over the batch in calculate_task_throughput")
+    for e in emits:
+        unit = e.args[0].elts[4]
+        srcs = [v.value for v in unit.values if isinstance(v, ast.FormattedValue)] if isinstance(unit, ast.JoinedStr) else [unit]
+        bad = [x for s in srcs for x in ast.walk(s) if (isinstance(x, ast.Name) and x.id in sampled) or
+               (isinstance(x, ast.Subscript) and isinstance(x.value, ast.Name) and x.value.id == batch)]
+        # a unit kept in the per-task state must not be overwritten by every sample either (that is the last sample again)
+        blind = []
+        for s in srcs:
+            if isinstance(s, ast.Attribute) and isinstance(s.value, ast.Name) and s.value.id == stats_var:
+                for n in ast.walk(TC):
+                    if isinstance(n, ast.Assign) and any(isinstance(t, ast.Attribute) and t.attr == s.attr and isinstance(t.value, ast.Name) and t.value.id in ("self", stats_var) for t in n.targets):
+                        fn = source.enclosing_func(n)
+                        if fn is None or fn.name == "__init__":
+                            continue
+                        if not guards(n, path_sensitive=True):
+                            blind.append(n)
+        where = "bucket-closing-sample" if L in list(source.ancestors(e)) else "last-sample-of-batch"
+        ok = bool(srcs) and not bad and not blind
+        chk.ob("O6.8", f"unit of the value emitted {'when a bucket closes' if where == 'bucket-closing-sample' else 'by the final-sample rule'} comes from a batch-independent source", ok, e,
+               "" if ok else (f"`{u(unit)}`: `{u(bad[0])}` is the sample that {'closes the bucket' if where == 'bucket-closing-sample' else 'ends the batch'}; "
+                              "a failed request there (weight 0, unit 'ops') relabels the task's docs/pages as 'ops/s'" if bad else
+                              f"`{short(blind[0], 60)}` overwrites the per-task unit with every sample: the last sample decides again"),
+               key=f"{_D}:ThroughputCalculator.calculate_task_throughput:unit-source:{where}")
+
+
+def low_water_mark_rule(chk, drv, TS, TC):
+    """F51. Workers flush on their own timers, so at any post-processing call the samples of different workers reach up to different times. A bucket may only be closed up to the time
+    ALL producers of the task have reported (low-water mark); closing it at the newest sample of ANY client misses the operations of slower workers for good (the stored value stays,
+    late samples older than the current interval never complete a bucket). Necessary: either the calculator distinguishes the producers of the samples it aggregates, or the driver holds raw
+    samples back by a per-producer watermark before it hands them to post-processing. Neither is possible without reading the producer's identity on that path."""
+    from sa.classes import is_logging_call
+    chk.rule("O6.9", "the time that closes a bucket is a low-water mark over the producers (clients / workers) of the task: the interval update inside the calculator depends on which "
+             "client produced a sample, or the driver holds raw samples back by per-producer state before handing them to post-processing", 1,
+             "two workers whose flushes reach the driver up to t=30 and t=25: the values for t in (25,30] miss the second worker's operations (18333 instead of 19967 docs/s) and stay; "
+             "at the end of the task the late samples remain in `unprocessed` for good")
+    sample_cls = drv.cls("Sample")
+    init = drv.methods(sample_cls).get("__init__")
+    fields = {t.attr for n in walk_body(init) if isinstance(n, ast.Assign) for t in n.targets if is_self_attr(t)} if init is not None else set()
+    ids = [f_ for f_ in _PRODUCER_ID if f_ in fields]
+    if not ids:
+        raise AnchorMissing("producer identity field (client_id) of Sample")
+    writers = [n for n in ast.walk(TS) if isinstance(n, (ast.Assign, ast.AugAssign)) and any(is_self_attr(t, "interval") for t in (n.targets if isinstance(n, ast.Assign) else [n.target]))
+               and source.enclosing_func(n) is not None and source.enclosing_func(n).name != "__init__"]
+    if not writers:
+        raise AnchorMissing("the TaskStats method that advances the interval")
+
+    def in_logging(x):
+        return any(is_logging_call(a_) for a_ in source.ancestors(x))
+
+    def id_reads(root):
+        return [x for x in ast.walk(root) if isinstance(x, ast.Attribute) and isinstance(x.ctx, ast.Load) and x.attr in _PRODUCER_ID and not is_self_attr(x) and not in_logging(x)]
+
+    # (a) inside the calculator
+    in_calc = id_reads(TC)
+    # (b) upstream: the driver method(s) that hand the received raw samples to the post-processor
+    pp_classes = {source.enclosing_class(n).name for n in ast.walk(drv.tree) if isinstance(n, ast.Assign) and isinstance(n.value, ast.Call) and last_attr(n.value.func) == TC.name
+                  and any(is_self_attr(t) for t in n.targets) and source.enclosing_class(n) is not None}
+    holders = {}
+    for n in ast.walk(drv.tree):
+        if isinstance(n, ast.Assign) and isinstance(n.value, ast.Call) and last_attr(n.value.func) in pp_classes and source.enclosing_class(n) is not None:
+            for t in n.targets:
+                if is_self_attr(t):
+                    holders.setdefault(source.enclosing_class(n), set()).add(t.attr)
+    if not holders:
+        raise AnchorMissing("the attribute holding the sample post-processor (owner of the ThroughputCalculator)")
+    held_back = []
+    n_hand = 0
+    for cls_, hattrs in holders.items():
+        cm = drv.methods(cls_)
+        # per-producer state of that class: attributes stored under a key that is a producer identity
+        keyed = set()
+        for n in ast.walk(cls_):
+            if isinstance(n, ast.Subscript) and isinstance(n.ctx, ast.Store) and is_self_attr(n.value):
+                if any((isinstance(x, ast.Attribute) and x.attr in _PRODUCER_ID) or (isinstance(x, ast.Name) and x.id in _PRODUCER_ID) for x in ast.walk(n.slice)):
+                    keyed.add(n.value.attr)
+        for name, f in cm.items():
+            if not any(isinstance(c, ast.Call) and is_self_attr(c.func) and c.func.attr in hattrs for c in walk_body(f)):
+                continue
+            n_hand += 1
+            todo, seen = [f], set()
+            while todo:
+                h = todo.pop()
+                if h.name in seen or len(seen) > 8:
+                    continue
+                seen.add(h.name)
+                held_back += id_reads(h)
+                held_back += [x for x in ast.walk(h) if is_self_attr(x) and isinstance(x.ctx, ast.Load) and x.attr in keyed and not in_logging(x)]
+                todo += [cm[c.func.attr] for c in walk_body(h) if isinstance(c, ast.Call) and is_self_attr(c.func) and c.func.attr in cm]
+    if n_hand == 0:
+        raise AnchorMissing("the driver method that hands raw samples to the sample post-processor")
+    ok = bool(in_calc) or bool(held_back)
+    w = writers[0]
+    fn = source.enclosing_func(w)
+    chk.ob("O6.9", "bucket-closing time is a low-water mark over the task's producers", ok, w,
+           (f"producer identity consulted: `{short(source.enclosing_stmt((in_calc or held_back)[0]), 70)}`" if ok else
+            f"`{short(w, 70)}` advances with the newest sample of ANY client: neither ThroughputCalculator nor the hand-over of raw samples to post-processing reads "
+            f"{'/'.join(_PRODUCER_ID)} or per-producer state, so a bucket is closed before slower workers' samples for that time span have arrived"),
+           key=f"{_D}:ThroughputCalculator.TaskStats.{fn.name}:bucket-closing-time-low-water-mark")
+
+
 def run(chk):
     repo = chk.repo
     drv = repo.module(_D)
@@ -68,7 +378,9 @@ def run(chk):
         "Decides the conservation skeleton of the throughput calculation: every sample's operations are added to the running count exactly once per "
         "invocation; each loop iteration ends in exactly one of {finish a bucket, keep the sample as unprocessed}; carried total and unprocessed list are "
         "only written together by the bucket-finishing routine; the unprocessed list is merged into the next batch and cleared once merged; interval is "
-        "monotone and division is guarded; the emitted sample type is the monotone per-task type; runner throughput is passed through on `is None` dispatch; unit is '<ops>/s'."
+        "monotone and division is guarded; the emitted sample type is the monotone per-task type; runner throughput is passed through on `is None` dispatch; unit is '<ops>/s'. "
+        "After the defect hunt: a worker drains its sampler before every overwrite of it (O6.6); necessary conditions for a per-task sticky pass-through decision (O6.7), a "
+        "batch-independent unit source (O6.8) and a low-water-mark bucket-closing time over the producers (O6.9) - the last three are falsified on the pinned tree (known findings F49-F51)."
     )
     chk.not_decided = "equality of the emitted numbers with ops/elapsed for all streams (numeric), bucket boundaries under out-of-order arrival."
     TC = drv.cls("ThroughputCalculator")
@@ -368,6 +680,15 @@ def run(chk):
             and isinstance(unit.values[1], ast.Constant) and unit.values[1].value == "/s"
         chk.ob("O6.4", "unit is '<ops unit>/s'", ok, e, f"5th element: {u(unit)}")
 
+    # ---- obligations added after the defect hunt --------------------------------------------------------------------------------------------
+    tp_fields = {t5_[3].attr for t5_ in (e.args[0].elts for e in memits) if isinstance(t5_[3], ast.Attribute)}
+    if len(tp_fields) != 1:
+        raise AnchorMissing("the sample field map_task_throughput passes through as the value (4th element of the emitted tuple)")
+    sampler_handover_rule(chk, drv)
+    passthrough_decision_rule(chk, drv, calc, ctt, mtt, tp_fields.pop())
+    unit_source_rule(chk, drv, TS, TC, ctt, emits, L, stats_var)
+    low_water_mark_rule(chk, drv, TS, TC)
+
 
 from sa.selftest import V  # noqa: E402
 
@@ -389,6 +710,23 @@ VARIANTS = [
     V("unit without /s", "break", _D, '                        f"{sample.total_ops_unit}/s",', '                        f"{sample.total_ops_unit}",', "O6.4"),
     V("throughput = count / bucket", "break", _D, "            return self.total_count / self.interval", "            return self.total_count / self.bucket", "O6.5"),
     V("start without time_period", "break", _D, "                start_time=first_sample.absolute_time - first_sample.time_period,", "                start_time=first_sample.absolute_time,", "O6.5"),
+    # F23 (repaired in f7c4bc2): the worker ships the remaining samples before it replaces / drops the sampler
+    V("F23: next round replaces the sampler undrained (repair reverted)", "break", _D,
+      "                # the previous tasks may have finished after the last periodic drain: ship their remaining samples before the sampler is replaced\n                self.send_samples()\n                self.sampler = Sampler(",
+      "                self.sampler = Sampler(", "O6.6"),
+    V("F23: drain of the next round only when no completion was requested", "break", _D,
+      "                self.send_samples()\n                self.sampler = Sampler(",
+      "                if self.cancel.is_set():\n                    self.send_samples()\n                self.sampler = Sampler(", "O6.6"),
+    V("F23: join point drains before it waits for the load generator", "break", _D,
+      "            if self.executor_future is not None:\n                self.executor_future.result()\n            self.send_samples()\n",
+      "            self.send_samples()\n            if self.executor_future is not None:\n                self.executor_future.result()\n", "O6.6"),
+    V("F23 respelled: drain moved above the log line", "keep", _D,
+      "                self.logger.debug(\"Worker[%d] is executing tasks at index [%d].\", self.worker_id, self.current_task_index)\n                # the previous tasks may have finished after the last periodic drain: ship their remaining samples before the sampler is replaced\n                self.send_samples()\n",
+      "                self.send_samples()\n                self.logger.debug(\"Worker[%d] is executing tasks at index [%d].\", self.worker_id, self.current_task_index)\n"),
+    V("F23 respelled: result of the drain bound, new sampler through a local", "keep", _D,
+      "                self.send_samples()\n                self.sampler = Sampler(start_timestamp=time.perf_counter(), buffer_size=self.sample_queue_size)\n",
+      "                leftover = self.send_samples()\n                if leftover:\n                    self.logger.debug(\"Worker[%d] shipped [%d] late samples.\", self.worker_id, len(leftover))\n"
+      "                fresh = Sampler(start_timestamp=time.perf_counter(), buffer_size=self.sample_queue_size)\n                self.sampler = fresh\n"),
     # preserving
     V("reorder finish assignments", "keep", _D, "            self.unprocessed = []\n            self.total_count = new_total", "            self.total_count = new_total\n            self.unprocessed = []"),
     V("is not None dispatch inverted", "keep", _D,
